@@ -97,8 +97,23 @@ def layer(draw):
         return src, model
     if kind == "comp":
         k = draw(st.integers(0, 9))
-        src = "{[k]: " + str(k) + " for k in [" + ", ".join(JS(n) for n in names) + "]}"
-        return src, {"fields": {n: ":" for n in names}, "removed": [], "features": {"comp"}}
+        # the field bodies of a comprehension see self/super/object locals like ordinary fields do
+        body, feats = draw(st.sampled_from([
+            (str(k), set()), (str(k), set()),
+            (f"(if k in super then super[k] + 1 else {k})", {"super"}),
+            (f"(if {JS(draw(st.sampled_from(POOL)))} in super then 1 else 0) + {k}", {"super"}),
+            (f"lv + {k}", {"comp-local"}),
+            (f"std.length(std.objectFields(self)) * 0 + {k}", set()),
+            (f"std.length(std.objectFieldsAll($)) * 0 + {k}", set()),
+        ]))
+        plus = draw(st.integers(0, 3)) == 0
+        loc = ""
+        if "lv" in body:
+            loc = "local lv = 7, "
+        elif draw(st.integers(0, 3)) == 0:
+            loc = "local unused = self, "
+        src = "{" + loc + "[k]" + ("+" if plus else "") + ": " + body + " for k in [" + ", ".join(JS(n) for n in names) + "]}"
+        return src, {"fields": {n: ":" for n in names}, "removed": [], "features": {"comp"} | feats | ({"plus"} if plus else set())}
     base = "{" + ", ".join(f"{n}: {draw(st.integers(1, 9))}" for n in names) + "}"
     if kind == "mergepatch":
         other = draw(st.sampled_from(POOL))
